@@ -577,6 +577,12 @@ class Run(RunBase):
         gone = [i for i in ids if self._find(kind, i) is None]
         for i in gone:
             self.m.remove_id(i)
+        # a refused sign / light removal still runs the network's reference clean-up (references of lanelets to ids
+        # that are not signs / lights of the network are dropped); which references lanelets hold is C10's business -
+        # the model only needs them to predict which signs / lights leave together with a lanelet, so it re-reads them
+        for la in sc.lanelet_network.lanelets:
+            if la.lanelet_id in self.m.refs:
+                self.m.refs[la.lanelet_id] = {"signs": set(la.traffic_signs), "lights": set(la.traffic_lights)}
         self.probe("list-removal-interrupted" if raised and gone else "list-removal-with-foreign-object")
         self._check_state(op, "state-after-interrupted-remove")
         return {"raised": raised, "gone": gone}
